@@ -91,7 +91,7 @@ def ins_corpus(tier, seed):
 
 def main(tier: str) -> int:
     seed = seed_from_env()
-    return run_property(PROP, tier, corpus(tier, seed), sig_of=sig_of, capit=2, ins_specs=ins_corpus(tier, seed),
+    return run_property(PROP, tier, corpus(tier, seed), sig_of=sig_of, capit=2, ins_specs=ins_corpus(tier, seed), ins_scripted=True,
                         scripted=True,
                         note="Every iteration logs the condition compared with the tolerance; an iteration event is "
                              "only legal while the previous condition exceeded the tolerance, finalise only when it no "
